@@ -1,7 +1,6 @@
 package message
 
 import (
-	"bytes"
 	"encoding/binary"
 	"fmt"
 	"math"
@@ -443,7 +442,11 @@ func (rw *ReadWriter) Read(m *MessageRaw, isV2 bool) (Message, error) {
 		// in this latter case it must be filled with zeros to support empty-byte de-truncation
 		// and extension fields
 		if len(payload) < int(rw.sizeExtended) {
-			payload = append(payload, bytes.Repeat([]byte{0x00}, int(rw.sizeExtended)-len(payload))...)
+			// do not append to the caller's slice: it would overwrite the bytes that follow
+			// the payload in the same backing array.
+			padded := make([]byte, rw.sizeExtended)
+			copy(padded, payload)
+			payload = padded
 		}
 	} else {
 		// in V1 buffer must fit message perfectly
